@@ -385,5 +385,154 @@ theorem equals_pathAt {X : SetOracle} (hX : IterPerm X) : ∀ (r' r : Pos) (v : 
                 simp
               · simp [hij]
 
+/-! ### marked positions are not inside sets -/
+
+theorem containsMarked_unmark1_members {p : Payload} (h : p.containsMarked = false) :
+    Payload.containsMarkedL (members p.unmark1) = false := by
+  cases p <;> simp_all [Payload.containsMarked, Payload.unmark1, members, Payload.containsMarkedL]
+
+theorem marks_nil_below {X : SetOracle} (hX : IterPerm X) : ∀ (r : Pos) (v n : Value),
+    v.v.containsMarked = false → nodeAt X v r = some n → n.marks = []
+  | [], v, n, h, hn => by
+    simp only [nodeAt, Option.some.injEq] at hn
+    subst hn
+    obtain ⟨t, p⟩ := v
+    cases p <;> simp_all [Payload.containsMarked, Value.marks, Payload.marks1]
+  | i :: r, v, n, h, hn => by
+    cases hi : (kids X v)[i]? with
+    | none => simp [nodeAt, hi] at hn
+    | some c =>
+      rw [nodeAt_cons hi] at hn
+      have hc : c ∈ kids X v := List.mem_of_getElem? hi
+      simp only [kids] at hc
+      split at hc
+      · cases hc
+      · have hm := children_mem hX _ _ hc
+        simp only [Value.unmark] at hm
+        exact marks_nil_below hX r c.2 n
+          (containsMarkedL_mem (containsMarked_unmark1_members h) _ hm) hn
+
+theorem noSet_of_marked {X : SetOracle} (hX : IterPerm X) : ∀ (r : Pos) (v n : Value),
+    shapedV v = true → nodeAt X v r = some n → n.marks ≠ [] → noSetAt X v r = true
+  | [], _, _, _, _, _ => rfl
+  | i :: r, v, n, hs, hn, hm => by
+    cases hi : (kids X v)[i]? with
+    | none => simp [nodeAt, hi] at hn
+    | some c =>
+      rw [nodeAt_cons hi] at hn
+      have hck : c ∈ kids X v := List.mem_of_getElem? hi
+      simp only [noSetAt, hi, Bool.and_eq_true]
+      refine ⟨?_, noSet_of_marked hX r c.2 n (kids_shaped hX v hs c hck) hn hm⟩
+      -- a set's members are mark-free all the way down
+      cases hty : v.ty <;> try rfl
+      rename_i e
+      exfalso
+      apply hm
+      have hsk := set_kid_strip hX v hs e hty c hck
+      have hfree : c.2.v.containsMarked = false := by
+        have := stripMarks_not_containsMarked c.2.v
+        have h2 : (strip c.2).v = c.2.v := by rw [hsk]
+        simp only [strip, Value.unmarkDeep] at h2
+        rw [h2] at this
+        exact this
+      exact marks_nil_below hX r c.2 n hfree hn
+
+/-! ### the recorded list answers for every position -/
+
+/-- the marks recorded for a node: none if it has none -/
+def marksOpt (n : Value) : Option (List String) := if n.marks = [] then none else some n.marks
+
+/-- every entry is the path and the marks of a marked position -/
+def PosEntries (X : SetOracle) (v : Value) (L : List PVM) : Prop :=
+  ∀ e ∈ L, ∃ r' n', nodeAt X v r' = some n' ∧ pathAt X v r' = some e.1 ∧ e.2 = n'.marks ∧ n'.marks ≠ []
+
+theorem pathAt_isSome_of_nodeAt {X : SetOracle} : ∀ (r : Pos) (v n : Value), nodeAt X v r = some n →
+    ∃ q, pathAt X v r = some q
+  | [], _, _, _ => ⟨[], rfl⟩
+  | i :: r, v, n, hn => by
+    cases hi : (kids X v)[i]? with
+    | none => simp [nodeAt, hi] at hn
+    | some c =>
+      rw [nodeAt_cons hi] at hn
+      obtain ⟨q, hq⟩ := pathAt_isSome_of_nodeAt r c.2 n hn
+      exact ⟨c.1 :: q, by rw [pathAt_cons hi, hq]; rfl⟩
+
+theorem findPVM_posEntries {X : SetOracle} (hX : IterPerm X) (v : Value) (hs : shapedV v = true)
+    (r : Pos) (n : Value) (q : Path) (hn : nodeAt X v r = some n) (hq : pathAt X v r = some q) :
+    ∀ (L : List PVM), PosEntries X v L →
+      (findPVM X q L = .ok (some n.marks) ∧ ∃ e ∈ L, e.1 = q) ∨
+      (findPVM X q L = .ok none ∧ ∀ e ∈ L, e.1 ≠ q)
+  | [], _ => Or.inr ⟨rfl, fun _ h => by cases h⟩
+  | e :: L, hL => by
+    obtain ⟨r', n', hn', hq', hm', hne'⟩ := hL e (by simp)
+    have hns := noSet_of_marked hX r' v n' hs hn' hne'
+    have heq := equals_pathAt hX r' r v q e.1 hs hq hq' hns
+    obtain ⟨qe, ms⟩ := e
+    simp only at hq' hm' heq
+    simp only [findPVM, heq]
+    by_cases hrr : r = r'
+    · subst hrr
+      rw [hn] at hn'
+      simp only [Option.some.injEq] at hn'
+      subst hn'
+      rw [hq] at hq'
+      simp only [Option.some.injEq] at hq'
+      left
+      simp only [decide_true, hm']
+      exact ⟨trivial, ⟨(qe, n.marks), List.mem_cons_self, hq'.symm⟩⟩
+    · simp only [hrr, decide_false]
+      have hne : qe ≠ q := by
+        intro h
+        subst h
+        have h2 := equals_pathAt hX r' r' v qe qe hs hq' hq' hns
+        rw [heq] at h2
+        simp [hrr] at h2
+      rcases findPVM_posEntries hX v hs r n q hn hq L (fun x hx => hL x (List.mem_cons_of_mem _ hx)) with
+        ⟨h1, x, hx, hxq⟩ | ⟨h1, h2⟩
+      · exact Or.inl ⟨h1, x, List.mem_cons_of_mem _ hx, hxq⟩
+      · refine Or.inr ⟨h1, fun x hx => ?_⟩
+        rcases List.mem_cons.mp hx with rfl | hx
+        · exact hne
+        · exact h2 x hx
+
+/-- **the list recorded by the unmark transform answers, for every position of the
+value, with that position's marks** -/
+theorem adequate_unmark {X : SetOracle} (hX : IterPerm X) {σ : Sched} (hσ : SchedOk σ) (v : Value)
+    (hs : shapedV v = true) (r : Pos) (n : Value) (q : Path) (hn : nodeAt X v r = some n)
+    (hq : pathAt X v r = some q) :
+    findPVM X q (pvmOf (unEvs X σ (v.v.depth + 1) [] v)) = .ok (marksOpt n) := by
+  have hmem := mem_pvmOf_unEvs hX hσ (v.v.depth + 1) v (by omega) hs []
+  have hL : PosEntries X v (pvmOf (unEvs X σ (v.v.depth + 1) [] v)) := by
+    intro e he
+    obtain ⟨r', n', q', h1, h2, h3, h4, h5⟩ := (hmem e.1 e.2).mp he
+    simp only [List.nil_append] at h3
+    exact ⟨r', n', h1, by rw [h3]; exact h2, h4, h5⟩
+  rcases findPVM_posEntries hX v hs r n q hn hq _ hL with ⟨h1, e, he, heq⟩ | ⟨h1, h2⟩
+  · -- an entry with this path exists: it is this position's, so the node is marked
+    obtain ⟨r', n', q', g1, g2, g3, g4, g5⟩ := (hmem e.1 e.2).mp he
+    simp only [List.nil_append] at g3
+    have hns := noSet_of_marked hX r' v n' hs g1 g5
+    have h2 := equals_pathAt hX r' r v q q' hs hq g2 hns
+    have h3 := equals_pathAt hX r' r' v q' q' hs g2 g2 hns
+    rw [← g3, heq] at h3
+    rw [← g3, heq, h3] at h2
+    simp only [Res.ok.injEq, decide_eq_true_eq, decide_true] at h2
+    have hrr : r = r' := by
+      by_cases h : r = r'
+      · exact h
+      · simp [h] at h2
+    subst hrr
+    rw [hn] at g1
+    simp only [Option.some.injEq] at g1
+    subst g1
+    simp only [h1, marksOpt, g5, if_false]
+  · -- no entry has this path: the node carries no mark
+    have : n.marks = [] := by
+      apply Classical.byContradiction
+      intro hne
+      have := (hmem q n.marks).mpr ⟨r, n, q, hn, hq, by simp, rfl, hne⟩
+      exact h2 _ this rfl
+    simp only [h1, marksOpt, this, if_true]
+
 end Walk
 end CtyModel
